@@ -352,6 +352,9 @@ package logqlmetric
 //@   loop 2 modifies *
 //@   capture ky = call(s.Set.Key, 0)
 //@   capture la = call(s.Set.AsLokiAPI, 1)
+//@   capture nx = call(iter.Next, 0)
+//@   loop 0 body_ensures[every-iteration-takes-a-step] nx_called && nx_r0
+//@   loop 0 exit_ensures[a-range-query-reads-every-step] !instant ==> nx_called && !nx_r0
 //@   loop 2 body_ensures[series-identified-by-the-label-set-key] ky_called && same(ky_recv, s.Set) && has(matrixSeries, ky_r0)
 //@   loop 2 body_ensures[labels-taken-at-first-sight] la_called == !head(has(matrixSeries, ky_r0)) && (la_called ==> same(la_recv, s.Set))
 //@   loop 2 body_ensures[one-point-per-sample] len(matrixSeries[ky_r0].Values) == head(len(matrixSeries[ky_r0].Values)) + 1
